@@ -4,5 +4,7 @@
 // keeps the three-path structure (<= 90 degrees / split at the halfway vector / antipodal fallback) readable
 // and is what the setRotation theorems are stated about.
 #define IN(Ty, n) auto n = c.template in<Ty<T>> (#n)
-EXTRACT ("C10Rot", q_setRotationMod, "C10.Quat.setRotationMod", { IN (Quat, q); IN (Vec3, vfrom); IN (Vec3, vto); q.setRotation (vfrom, vto); c.out (q); })
-EXTRACT ("C10Rot", a_rotationMatrixMod, "C10.rotationMatrixMod", { IN (Vec3, vfrom); IN (Vec3, vto); c.out (rotationMatrix (vfrom, vto)); })
+// lattice (64): extra TV inputs from the small-integer lattice with random sparsity -- exactly opposite pairs (to = -k from on a coordinate
+// axis / in a coordinate plane) occur there, so the five leaves of the antipodal fallback are compared with the real code as well
+EXTRACT_OPT ("C10Rot", q_setRotationMod, "C10.Quat.setRotationMod", symns::Opts ().lattice (64), { IN (Quat, q); IN (Vec3, vfrom); IN (Vec3, vto); q.setRotation (vfrom, vto); c.out (q); })
+EXTRACT_OPT ("C10Rot", a_rotationMatrixMod, "C10.rotationMatrixMod", symns::Opts ().lattice (64), { IN (Vec3, vfrom); IN (Vec3, vto); c.out (rotationMatrix (vfrom, vto)); })
